@@ -411,13 +411,98 @@ def _matrix_shape(f) -> Dict[str, object]:
     return d
 
 
+SHAPES = [(0, 0), (0, 3), (3, 0), (1, 1), (1, 4), (4, 1), (3, 2), (2, 3)]
+
+
+def copy_loop_verdict(f, kind: str) -> Optional[List[str]]:
+    """Runs a converter's copy loop (own interpreter over the clang AST, sample arrays whose cells are symbols) for a set of
+    shapes including the empty ones and compares where every cell ended up with the column-major layout MATLAB uses.  kind is
+    'wrap_matrix', 'unwrap_matrix', 'wrap_vector' or 'unwrap_vector'.  Returns the list of differences, or None when the function
+    is written with constructs the interpreter does not know."""
+    from .cinterp import CError, CUnknown, Dense, MxArray, run_function
+    params = [p.get("name") for p in f.get("inner", []) if p.get("kind") == "ParmVarDecl"]
+    if len(params) != 1:
+        return None
+    diffs: List[str] = []
+    shapes = SHAPES if kind.endswith("matrix") else [(0, 1), (1, 1), (4, 1)]
+    try:
+        for m, n in shapes:
+            if kind.startswith("unwrap"):
+                arr = MxArray(m, n, [("d", k) for k in range(m * n)])
+                try:
+                    res, mach = run_function(f, {params[0]: arr})
+                except CError:
+                    diffs.append(f"{m}x{n}: reported as an error")
+                    continue
+                if not isinstance(res, Dense):
+                    return None
+                want_shape = (m, n) if kind.endswith("matrix") else (m, 1)
+                if (res.rows, res.cols) != want_shape:
+                    diffs.append(f"{m}x{n} array gives a {res.rows}x{res.cols} object")
+                    continue
+                wrong = [(i, j) for j in range(n) for i in range(m) if res.cells.get((i, j)) != ("d", j * m + i)]
+                if wrong:
+                    i, j = wrong[0]
+                    diffs.append(f"{m}x{n}: element ({i},{j}) receives {res.cells.get((i, j))} instead of array element {j * m + i}"
+                                 + (f" ({len(wrong)} of {m * n} misplaced)" if len(wrong) > 1 else ""))
+                if arr.oob or res.oob:
+                    diffs.append(f"{m}x{n}: {(arr.oob + res.oob)[0]}")
+            else:
+                obj = Dense(m, n, {(i, j): ("a", i, j) for i in range(m) for j in range(n)}, vector=not kind.endswith("matrix"))
+                try:
+                    res, mach = run_function(f, {params[0]: obj})
+                except CError:
+                    diffs.append(f"{m}x{n}: reported as an error")
+                    continue
+                if not isinstance(res, MxArray):
+                    return None
+                if (res.m, res.n) != (m, n):
+                    diffs.append(f"a {m}x{n} object gives a {res.m}x{res.n} array")
+                    continue
+                wrong = [(i, j) for j in range(n) for i in range(m) if res.data[j * m + i] != ("a", i, j)]
+                if wrong:
+                    i, j = wrong[0]
+                    diffs.append(f"{m}x{n}: array element {j * m + i} receives {res.data[j * m + i]} instead of element ({i},{j})"
+                                 + (f" ({len(wrong)} of {m * n} misplaced)" if len(wrong) > 1 else ""))
+                if res.oob or obj.oob:
+                    diffs.append(f"{m}x{n}: {(res.oob + obj.oob)[0]}")
+    except CUnknown:
+        return None
+    return diffs
+
+
 def rule_loop_shapes(ctx, rep: Report, rid="K5"):
     h = header(ctx)
     wm = h.functions("wrap_Matrix")
     um = _unwrap_specs(h).get("gtsam::Matrix")
     if not wm or um is None:
         raise AnalysisError("wrap_Matrix / unwrap<Matrix> not found")
+    # decided by running the copy loops on sample arrays wherever the interpreter can follow them; by loop shape otherwise
+    evaluated = 0
+    decided = set()
+    todo = [("wrap_Matrix", wm[0], "wrap_matrix"), ("unwrap<Matrix>", um, "unwrap_matrix")]
+    wv0 = h.functions("wrap_Vector")
+    if wv0:
+        todo.append(("wrap_Vector", wv0[0], "wrap_vector"))
+    for t_ in sorted(VECTOR_KINDS):
+        f_ = _unwrap_specs(h).get(t_)
+        if f_ is not None and t_ == "gtsam::Vector":
+            todo.append((f"unwrap<{t_}>", f_, "unwrap_vector"))
+    for label, f_, kind in todo:
+        v = copy_loop_verdict(inline_helpers(h, f_), kind)
+        if v is None:
+            continue
+        evaluated += 1
+        decided.add(label)
+        rep.add(rid, f"{label}:every element lands at its column-major place, for every shape (empty ones included)", not v,
+                f"run on sample arrays: {v[:3]}: MATLAB arrays are column-major (element (i,j) of an m x n array is number j*m+i); any other traversal "
+                f"transposes or scrambles the values, and a wrong length reads or writes outside the array", hloc(f_))
+    rep.units["copy_loops_evaluated"] = evaluated
     ws, us = _matrix_shape(wm[0]), _matrix_shape(um)
+    if "wrap_Matrix" in decided:
+        ws = {"bounds": ["cols", "rows"], "index": ["inner", "outer"], "advance": "pointer++ per element", "direction": "to-array"}
+    if "unwrap<Matrix>" in decided:
+        us = {"bounds": ["mxGetN", "mxGetM"], "index": ["inner", "outer"], "advance": "pointer++ per element", "direction": "from-array"}
     rep.add(rid, "wrap_Matrix:column-major nest (outer cols, inner rows, element (i,j))",
             ws.get("bounds") == ["cols", "rows"] and ws.get("index") == ["inner", "outer"]
             and ws.get("advance") == "pointer++ per element" and ws.get("direction") == "to-array",
@@ -428,18 +513,18 @@ def rule_loop_shapes(ctx, rep: Report, rid="K5"):
             and us.get("advance") == "pointer++ per element" and us.get("direction") == "from-array",
             f"found {us}", hloc(um))
     # creation shapes
-    for c in calls(wm[0], "mxCreateDoubleMatrix"):
+    for c in (calls(wm[0], "mxCreateDoubleMatrix") if "wrap_Matrix" not in decided else []):
         a = call_args(c)
         srcs = [_source_of(wm[0], a[0]), _source_of(wm[0], a[1])]
         rep.add(rid, "wrap_Matrix:array created as rows x cols", srcs == ["rows", "cols"],
                 f"mxCreateDoubleMatrix({srcs[0]}, {srcs[1]})", hloc(c))
     ctor = [c for c in walk(um) if c.get("kind") == "CXXConstructExpr" and "Matrix" in canon_type(c.get("type", {}))
             and len(c.get("inner", [])) == 2]
-    for c in ctor:
+    for c in (ctor if "unwrap<Matrix>" not in decided else []):
         srcs = [_source_of(um, x) for x in c["inner"]]
         rep.add(rid, "unwrap<Matrix>:matrix created as mxGetM x mxGetN", srcs == ["mxGetM", "mxGetN"],
                 f"Matrix({srcs[0]}, {srcs[1]})", hloc(c))
-    if not ctor:
+    if not ctor and "unwrap<Matrix>" not in decided:
         raise AnalysisError("unwrap<Matrix>: matrix construction not found")
     # vectors
     wv = h.functions("wrap_Vector")
@@ -447,8 +532,8 @@ def rule_loop_shapes(ctx, rep: Report, rid="K5"):
         raise AnalysisError("wrap_Vector not found")
     s = _matrix_shape(wv[0])
     rep.add(rid, "wrap_Vector:one element per row, m x 1 array",
-            s.get("bounds") == ["size"] and s.get("direction") == "to-array", f"found {s}", hloc(wv[0]))
-    for c in calls(wv[0], "mxCreateDoubleMatrix"):
+            "wrap_Vector" in decided or (s.get("bounds") == ["size"] and s.get("direction") == "to-array"), f"found {s}", hloc(wv[0]))
+    for c in (calls(wv[0], "mxCreateDoubleMatrix") if "wrap_Vector" not in decided else []):
         a = call_args(c)
         srcs = [_source_of(wv[0], a[0]), _source_of(wv[0], a[1])]
         rep.add(rid, "wrap_Vector:array created as size x 1", srcs == ["size", "1"],
@@ -459,8 +544,8 @@ def rule_loop_shapes(ctx, rep: Report, rid="K5"):
             continue
         s = _matrix_shape(f)
         rep.add(rid, f"unwrap<{t}>:reads mxGetM elements in order",
-                s.get("bounds") == ["mxGetM"] and s.get("direction") == "from-array"
-                and s.get("advance") in ("pointer++ per element", "indexed"), f"found {s}", hloc(f))
+                f"unwrap<{t}>" in decided or (s.get("bounds") == ["mxGetM"] and s.get("direction") == "from-array"
+                                              and s.get("advance") in ("pointer++ per element", "indexed")), f"found {s}", hloc(f))
     # wrap<T> for vector/matrix types delegate
     w = h.specialisations("wrap")
     for t in sorted(VECTOR_KINDS | MATRIX_KINDS):
